@@ -188,3 +188,64 @@ Definition c02_forge_offcurve (d qx qy m : string) : string :=
   let y2 := to32 (get_y B R) in
   let t := sm2_kdf (x2 ++ y2) (length (hx m)) in
   ct_line (mkct (to32 (hz qx)) (to32 (hz qy)) (c3_hash x2 (hx m) y2) (xor_bytes t (hx m))).
+
+(* ---------------- pre-computation interfaces (batch inversion) ---------------- *)
+(* stand-ins for the unobservable Jacobian Z coordinates (any non-zero values give the same result:
+   fast_pre_compute_eq_partial / enc_pre_compute_eq_partial) *)
+Definition zs_for (cnt : nat) : list Z := map (fun i => 0x1234567 * Z.of_nat i + 2) (seq 0 cnt).
+
+Definition c01_signpre (en : string) : string :=
+  let e0 := ent_of en in
+  match fast_pre_compute B (zs_for 32) e0 with
+  | Some (pre, e1) => join ";" (map (fun kx => z64 (fst kx) ++ "," ++ z64 (snd kx)) pre) ++ " " ++ used e0 e1
+  | None => "ERR"
+  end.
+
+Definition slot_str (s : Z * (Z * Z)) : string :=
+  z64 (fst s) ++ "," ++ z64 (fst (snd s)) ++ "," ++ z64 (snd (snd s)).
+Definition c02_encpre (en : string) : string :=
+  let e0 := ent_of en in
+  match enc_pre_compute B (zs_for 8) e0 with
+  | Some (pre, e1) => join ";" (map slot_str pre) ++ " " ++ used e0 e1
+  | None => "ERR"
+  end.
+Definition ex_str (r : exres) : string :=
+  match r with ExOk c => bhex (ct_to_der c) | ExRetry => "RETRY" | ExErr => "ERR" end.
+Definition c02_encex (P m k x y : string) : string :=
+  ex_str (do_encrypt_ex B (pt_of P) (hz k, (hz x, hz y)) (hx m)).
+(* pre-compute, then sm2_do_encrypt_ex with EACH of the 8 slots on the same message *)
+Definition c02_encpreex (P m en : string) : string :=
+  let e0 := ent_of en in
+  match enc_pre_compute B (zs_for 8) e0 with
+  | Some (pre, e1) => join "," (map (fun s => ex_str (do_encrypt_ex B (pt_of P) s (hx m))) pre) ++ " " ++ used e0 e1
+  | None => "ERR"
+  end.
+
+(* SM2_ENC_CTX over several messages (round = updates, finish, reset) *)
+Fixpoint ctx_rounds_default (P : point B) (rounds : list (list string)) (en : ent) : option (list string * ent) :=
+  match rounds with
+  | [] => Some ([], en)
+  | chunks :: rest =>
+    match encrypt_stream B P (map hx chunks) en with
+    | None => None
+    | Some (o, en') =>
+      match ctx_rounds_default P rest en' with
+      | None => None
+      | Some (outs, en'') => Some (bhex o :: outs, en'')
+      end
+    end
+  end.
+(* default build: sm2_encrypt_finish calls sm2_encrypt *)
+Definition c02_ectxr (P : string) (rounds : list (list string)) (en : string) : string :=
+  let e0 := ent_of en in
+  match ctx_rounds_default (pt_of P) rounds e0 with
+  | Some (outs, e1) => join "," outs ++ " " ++ used e0 e1
+  | None => "ERR"
+  end.
+(* library built with -DENABLE_SM2_ENC_PRE_COMPUTE=1 *)
+Definition c02_ectxr_pre (P : string) (rounds : list (list string)) (en : string) : string :=
+  let e0 := ent_of en in
+  match encrypt_ctx_pre B (zs_for 8) (pt_of P) (map (map hx) rounds) e0 with
+  | Some (outs, e1) => join "," (map bhex outs) ++ " " ++ used e0 e1
+  | None => "ERR"
+  end.
